@@ -6,6 +6,7 @@ import (
 	"fmt"
 	"math/rand"
 	"os"
+	"runtime/pprof"
 	"sort"
 	"strings"
 	"sync"
@@ -70,6 +71,12 @@ type runInfo struct {
 }
 
 func Run(a vc.Args) {
+	if pf := os.Getenv("VERIF_VCCLIENT_PROF"); pf != "" {
+		f, err := os.Create(pf)
+		must(err)
+		must(pprof.StartCPUProfile(f))
+		defer pprof.StopCPUProfile()
+	}
 	s := newSim()
 	defer s.w.Close()
 	rc := rec.New(a.Out)
@@ -220,6 +227,7 @@ func (d *drv) runTrace(id int, seed int64, kind string, steps []step) resetInfo 
 	if w.Cur != nil {
 		w.EndBlock()
 	}
+	d.emit(rec.M{"ev": "End"}, "end", false)
 	return reset
 }
 
@@ -357,6 +365,11 @@ func (d *drv) block() {
 func (d *drv) poll(st step) {
 	s := d.s
 	m := d.miner(st.M)
+	select {
+	case <-m.done:
+		return // its DKG process is dead: nobody polls
+	default:
+	}
 	if st.View == "" {
 		st.View = "cur"
 	}
